@@ -1,6 +1,7 @@
 package kongutil
 
 import (
+	"errors"
 	"fmt"
 	"os"
 	"reflect"
@@ -33,7 +34,12 @@ func outputFileMapper(dctx *kong.DecodeContext, target reflect.Value) error {
 		return fmt.Errorf("target file already exists")
 	}
 
-	f, err := os.OpenFile(path, os.O_WRONLY|os.O_CREATE, os.ModePerm)
+	// O_EXCL: file which appeared after the check above is never opened (and so never overwritten)
+	f, err := os.OpenFile(path, os.O_WRONLY|os.O_CREATE|os.O_EXCL, os.ModePerm)
+	if errors.Is(err, os.ErrExist) {
+		return fmt.Errorf("target file already exists")
+	}
+
 	if err != nil {
 		return err
 	}
